@@ -165,7 +165,7 @@ cpdef str icao(str msg):
     cdef long c0, c1
 
     if DF in (11, 17, 18):
-        addr = msg[2:8]
+        addr = msg[2:8].upper()
     elif DF in (0, 4, 5, 16, 20, 21):
         c0 = crc(msg, encode=True)
         c1 = hex2int(msg[-6:])
